@@ -488,6 +488,13 @@ class HTTP2Connection(ConnectionInterface):
             data = self._network_stream.read(self.READ_NUM_BYTES, timeout)
             if data == b"":
                 raise RemoteProtocolError("Server disconnected")
+
+            # Any protocol error that h2 raises here is caused by the data
+            # that the remote end has sent. The connection cannot be used any
+            # further, and the events that were parsed before the error are lost,
+            # so this is handled in the same way as a network error.
+            with map_exceptions({h2.exceptions.ProtocolError: RemoteProtocolError}):
+                events: list[h2.events.Event] = self._h2_state.receive_data(data)
         except Exception as exc:
             # If we get a network error we should:
             #
@@ -500,11 +507,6 @@ class HTTP2Connection(ConnectionInterface):
             self._read_exception = exc
             self._connection_error = True
             raise exc
-
-        # Any protocol error that h2 raises here is caused by the data
-        # that the remote end has sent.
-        with map_exceptions({h2.exceptions.ProtocolError: RemoteProtocolError}):
-            events: list[h2.events.Event] = self._h2_state.receive_data(data)
 
         return events
 
